@@ -81,6 +81,8 @@ type Pkt struct {
 	// datagram described by the other fields; FragOff is the offset of the last fragment in 8-byte units
 	FragPart, FragOff int
 	FragID            uint16
+	// Noise: not a packet of a conversation (Conv is -1) but a frame that carries no stream
+	Noise string
 	// layout
 	TS    time.Time
 	File  int
@@ -93,6 +95,9 @@ func (p *Pkt) handshake() bool {
 }
 
 func (p *Pkt) String() string {
+	if p.Noise != "" {
+		return "noise " + p.Noise
+	}
 	if p.FragPart != 0 {
 		q := *p
 		q.FragPart = 0
@@ -165,6 +170,11 @@ type Case struct {
 	// packets the even ones go to file 0 and the odd ones to file 1, the rest to file 2;
 	// "ovlp:<k>" the same in pairs (0,0,1,1,...)
 	Assign string `json:"assign,omitempty"`
+	// Noise: frames that carry no stream, "<kind>@<pos>" separated by commas: a frame of that kind (arp | lldp |
+	// icmp | v4junk | udpjunk | tcpoff) is captured directly in front of packet <pos> of the capture (cut positions keep
+	// addressing the packets of the conversations; the frame lands in the file of the packet behind it and takes
+	// an index of its own there).  Only with link "eth".
+	Noise string `json:"noise,omitempty"`
 }
 
 func (c Case) Key() string {
@@ -175,6 +185,9 @@ func (c Case) Key() string {
 	k := fmt.Sprintf("%s devs=[%s] il=%s link=%s cuts=%v", c.Set, strings.Join(ds, " "), c.Interleave, c.Link, c.Cuts)
 	if c.Assign != "" {
 		k += " assign=" + c.Assign
+	}
+	if c.Noise != "" {
+		k += " noise=" + c.Noise
 	}
 	return k
 }
@@ -835,14 +848,41 @@ func Build(c Case) (*Capture, error) {
 	for f := 0; f <= len(cuts); f++ {
 		cp.Files = append(cp.Files, fmt.Sprintf("f%d.pcap", f))
 	}
+	noiseAt := map[int][]string{}
+	if c.Noise != "" {
+		if c.Assign != "" || (c.Link != "eth" && c.Link != "") {
+			return nil, fmt.Errorf("noise frames need link eth and cuts")
+		}
+		for _, n := range strings.Split(c.Noise, ",") {
+			kind, ps, _ := strings.Cut(n, "@")
+			pos, err := strconv.Atoi(ps)
+			if err != nil || pos < 0 || pos >= len(all) || !noiseKinds[kind] {
+				return nil, fmt.Errorf("bad noise %q", n)
+			}
+			if all[pos].Tie {
+				return nil, fmt.Errorf("noise in front of a packet that shares its timestamp with its predecessor")
+			}
+			noiseAt[pos] = append(noiseAt[pos], kind)
+		}
+	}
 	f, idx := 0, 0
+	var withNoise []*Pkt
 	for i, p := range all {
 		if f < len(cuts) && i == cuts[f] {
 			f++
 			idx = 0
 		}
+		for k, kind := range noiseAt[i] {
+			withNoise = append(withNoise, &Pkt{Conv: -1, Noise: kind, TS: p.TS.Add(-time.Duration(len(noiseAt[i])-k) * time.Microsecond), File: f, Index: idx})
+			idx++
+		}
 		p.File, p.Index = f, idx
 		idx++
+		withNoise = append(withNoise, p)
+	}
+	if len(noiseAt) != 0 {
+		all = withNoise
+		cp.Packets = all
 	}
 	if c.Assign != "" {
 		if len(cuts) != 0 {
@@ -893,6 +933,9 @@ func Build(c Case) (*Capture, error) {
 	}
 	perConv := make([][]*Pkt, len(set.Convs))
 	for _, p := range all {
+		if p.Conv < 0 {
+			continue
+		}
 		perConv[p.Conv] = append(perConv[p.Conv], p)
 	}
 	for ci := range set.Convs {
@@ -1032,7 +1075,64 @@ func NumPackets(set *ConvSet, devs []Dev, il string) int {
 
 var macs = [2][]byte{{2, 0, 0, 0, 0, 1}, {2, 0, 0, 0, 0, 2}}
 
+var noiseKinds = map[string]bool{"arp": true, "lldp": true, "icmp": true, "v4junk": true, "udpjunk": true, "tcpoff": true}
+
+// noiseFrame renders a frame that belongs to no conversation: an ARP request, an LLDP advertisement (both without
+// network layer), an ICMP echo request (a network layer but no transport layer the importer follows) and an
+// IPv4 frame whose header says TCP but ends in the middle of the TCP header.
+func noiseFrame(kind string) ([]byte, error) {
+	buf := gopacket.NewSerializeBuffer()
+	opts := gopacket.SerializeOptions{FixLengths: true, ComputeChecksums: true}
+	var err error
+	switch kind {
+	case "arp":
+		err = gopacket.SerializeLayers(buf, opts,
+			&layers.Ethernet{SrcMAC: macs[0], DstMAC: net.HardwareAddr{0xff, 0xff, 0xff, 0xff, 0xff, 0xff}, EthernetType: layers.EthernetTypeARP},
+			&layers.ARP{AddrType: layers.LinkTypeEthernet, Protocol: layers.EthernetTypeIPv4, HwAddressSize: 6, ProtAddressSize: 4, Operation: layers.ARPRequest,
+				SourceHwAddress: macs[0], SourceProtAddress: net.ParseIP("10.0.0.1").To4(), DstHwAddress: make([]byte, 6), DstProtAddress: net.ParseIP("10.0.0.2").To4()})
+	case "lldp":
+		err = gopacket.SerializeLayers(buf, opts,
+			&layers.Ethernet{SrcMAC: macs[0], DstMAC: net.HardwareAddr{0x01, 0x80, 0xc2, 0x00, 0x00, 0x0e}, EthernetType: layers.EthernetTypeLinkLayerDiscovery},
+			gopacket.Payload([]byte{0x02, 0x07, 0x04, 0x02, 0x00, 0x00, 0x00, 0x00, 0x01, 0x04, 0x02, 0x07, 0x31, 0x06, 0x02, 0x00, 0x78, 0x00, 0x00}))
+	case "icmp":
+		err = gopacket.SerializeLayers(buf, opts,
+			&layers.Ethernet{SrcMAC: macs[0], DstMAC: macs[1], EthernetType: layers.EthernetTypeIPv4},
+			&layers.IPv4{Version: 4, IHL: 5, TTL: 64, Id: 7, Protocol: layers.IPProtocolICMPv4, SrcIP: net.ParseIP("10.0.0.1").To4(), DstIP: net.ParseIP("10.0.0.2").To4()},
+			&layers.ICMPv4{TypeCode: layers.CreateICMPv4TypeCode(layers.ICMPv4TypeEchoRequest, 0), Id: 1, Seq: 1},
+			gopacket.Payload([]byte("ping")))
+	case "v4junk":
+		err = gopacket.SerializeLayers(buf, opts,
+			&layers.Ethernet{SrcMAC: macs[0], DstMAC: macs[1], EthernetType: layers.EthernetTypeIPv4},
+			&layers.IPv4{Version: 4, IHL: 5, TTL: 64, Id: 8, Protocol: layers.IPProtocolTCP, SrcIP: net.ParseIP("10.0.0.1").To4(), DstIP: net.ParseIP("10.0.0.2").To4()},
+			gopacket.Payload([]byte{0x9c, 0x40, 0x00, 0x50, 0x00, 0x00}))
+	case "udpjunk":
+		// the IPv4 header says UDP, four bytes follow
+		err = gopacket.SerializeLayers(buf, opts,
+			&layers.Ethernet{SrcMAC: macs[0], DstMAC: macs[1], EthernetType: layers.EthernetTypeIPv4},
+			&layers.IPv4{Version: 4, IHL: 5, TTL: 64, Id: 9, Protocol: layers.IPProtocolUDP, SrcIP: net.ParseIP("10.0.0.1").To4(), DstIP: net.ParseIP("10.0.0.2").To4()},
+			gopacket.Payload([]byte{0x9c, 0x40, 0x00, 0x35}))
+	case "tcpoff":
+		// a complete TCP header whose data offset (3 words) is smaller than the header itself
+		err = gopacket.SerializeLayers(buf, opts,
+			&layers.Ethernet{SrcMAC: macs[0], DstMAC: macs[1], EthernetType: layers.EthernetTypeIPv4},
+			&layers.IPv4{Version: 4, IHL: 5, TTL: 64, Id: 10, Protocol: layers.IPProtocolTCP, SrcIP: net.ParseIP("10.0.0.1").To4(), DstIP: net.ParseIP("10.0.0.2").To4()},
+			gopacket.Payload([]byte{0x9c, 0x41, 0x00, 0x51, 0, 0, 0, 1, 0, 0, 0, 0, 0x30, 0x02, 0xff, 0xff, 0, 0, 0, 0, 'x', 'y'}))
+	default:
+		return nil, fmt.Errorf("unknown noise frame %q", kind)
+	}
+	if err != nil {
+		return nil, err
+	}
+	return append([]byte{}, buf.Bytes()...), nil
+}
+
 func (c *Capture) serialize(p *Pkt, link layers.LinkType, ipid uint16) ([]byte, error) {
+	if p.Noise != "" {
+		if link != layers.LinkTypeEthernet {
+			return nil, fmt.Errorf("noise frames need an Ethernet capture")
+		}
+		return noiseFrame(p.Noise)
+	}
 	spec := &c.Set.Convs[p.Conv]
 	sip, dip, sport, dport := spec.CIP, spec.SIP, spec.CPort, spec.SPort
 	if p.Dir == S2C {
